@@ -127,4 +127,29 @@ def readRecordV2 : M RecView := fun r0 =>
   | .error e => .error e
   | .ok (length, r1) => recTail length ((r0.remain : Int) - (r1.remain : Int)) r1
 
+/-! ### v0/v1: key and value of a message (readMessageV1: `readBytesWith(key)`, `readBytesWith(val)`, or
+`discardBytes` twice below `min`) -/
+
+/-- read.go readBytesWith with batch.go's key / value closure (readNewBytes): a 4-byte length, −1 = null -/
+def readBytes32 : M Bytes := do
+  let n ← readInt32
+  (fun r => if n > (r.remain : Int) then .error (.short, r) else readNewBytes n r : M Bytes)
+
+/-- discard.go discardBytes -/
+def discardBytes32 : M Unit := do
+  let n ← readInt32
+  (fun r => if n > (r.remain : Int) then .error (.short, r)
+            else if n < 0 then .ok ((), r) else discardN n.toNat r : M Unit)
+
+/-- readMessageV1, a message at or above `min`: key, value -/
+def readBodyV1 : M (Bytes × Bytes) := do
+  let k ← readBytes32
+  let v ← readBytes32
+  pure (k, v)
+
+/-- readMessageV1, a message below `min`: both discarded -/
+def skipBodyV1 : M Unit := do
+  discardBytes32
+  discardBytes32
+
 end KV.C02.BR
